@@ -313,8 +313,11 @@ func (bs *blockState) alloc(x *ssa.Alloc) {
 	// heap allocation: fresh reference with zeroed contents
 	r := e.allocRef(bs.st, bs.g, x.Name())
 	e.regs[x] = Val{x.Type(), []string{r}}
-	if _, isArr := t.Underlying().(*types.Array); isArr {
-		return // backing array of a variadic call: elements are written before use
+	if at, isArr := t.Underlying().(*types.Array); isArr {
+		if isReadOnlyLiteral(x) {
+			e.roArrays = append(e.roArrays, roArray{x, at.Elem()})
+		}
+		return // backing array of a variadic call or literal: elements are written before use
 	}
 	e.storePtr(bs.st, t, r, zeroVal(t))
 	if isPrivateCell(x) {
@@ -950,4 +953,95 @@ func globalInitErrorsNew(g *ssa.Global) bool {
 		}
 	}
 	return false
+}
+
+type roArray struct {
+	a     *ssa.Alloc
+	elemT types.Type
+}
+
+// isReadOnlyLiteral: the backing array of a slice literal that is only initialised, measured and read
+// (e.g. `for _, t := range []string{"a", "b"}`): nothing else can write to it.
+func isReadOnlyLiteral(a *ssa.Alloc) bool {
+	if a.Comment != "slicelit" || a.Referrers() == nil {
+		return false
+	}
+	readOnlyAddr := func(ia *ssa.IndexAddr, initOK bool) bool {
+		for _, r := range *ia.Referrers() {
+			switch x := r.(type) {
+			case *ssa.UnOp, *ssa.DebugRef:
+			case *ssa.Store:
+				if !initOK || x.Addr != ssa.Value(ia) {
+					return false
+				}
+			default:
+				return false
+			}
+		}
+		return true
+	}
+	for _, r := range *a.Referrers() {
+		switch x := r.(type) {
+		case *ssa.IndexAddr:
+			if !readOnlyAddr(x, true) {
+				return false
+			}
+		case *ssa.Slice:
+			if !sliceReadOnly(x, 0) {
+				return false
+			}
+		case *ssa.DebugRef:
+		default:
+			return false
+		}
+	}
+	return true
+}
+
+// sliceReadOnly: every use of the slice value only measures it, reads its elements, or parks it in
+// a non-escaping local that is itself only used that way.
+func sliceReadOnly(v ssa.Value, depth int) bool {
+	if depth > 3 || v.Referrers() == nil {
+		return false
+	}
+	for _, r := range *v.Referrers() {
+		switch y := r.(type) {
+		case *ssa.IndexAddr:
+			for _, r3 := range *y.Referrers() {
+				switch r3.(type) {
+				case *ssa.UnOp, *ssa.DebugRef:
+				default:
+					return false
+				}
+			}
+		case *ssa.Call:
+			if b, ok := y.Call.Value.(*ssa.Builtin); !ok || b.Name() != "len" {
+				return false
+			}
+		case *ssa.Store:
+			al, ok := y.Addr.(*ssa.Alloc)
+			if !ok || al.Heap || y.Val != v {
+				return false
+			}
+			for _, r4 := range *al.Referrers() {
+				switch z := r4.(type) {
+				case *ssa.Store:
+					if z != y {
+						return false
+					}
+				case *ssa.UnOp:
+					if !sliceReadOnly(z, depth+1) {
+						return false
+					}
+				case *ssa.DebugRef:
+				default:
+					return false
+				}
+			}
+		case *ssa.DebugRef:
+		default:
+			return false
+		}
+	}
+	return true
 }
